@@ -705,7 +705,7 @@ impl Prop for C08 {
     }
     fn runs(&self, tier: Tier) -> u64 {
         match tier {
-            Tier::Quick => 120_000,
+            Tier::Quick => 200_000,
             Tier::Thorough => 6_000_000,
         }
     }
